@@ -1,5 +1,5 @@
 # replay of a bounded stand-in violation (C13): re-run native/c13_tdm.py
 import sys
-print('delays=[2, 3], leading identity bins per loop=[3, 4]: get_crop_value() = 5, in the hand-written loop the first 4 detected pulses are vacuum and pulse 4 carries light')
+print('N=[1, 1] bands measured in order [0, 1] timebins=5 shots=1: samples[0,0,1] identifies pulse 1, expected pulse 2 (band 0)')
 print('REPLAY-VIOLATION')
 sys.exit(1)
